@@ -193,7 +193,11 @@ class StereoCondensedReactionGraph(StereoMolGraph, CondensedReactionGraph):
         if stereo_change is None:
             del self._atom_stereo_change[atom]
         else:
+            if atom not in self._atom_stereo_change:
+                raise KeyError(atom)
             del self._atom_stereo_change[atom][stereo_change]
+            if not self._atom_stereo_change[atom]:
+                del self._atom_stereo_change[atom]
 
     def delete_bond_stereo_change(
         self, bond: Iterable[AtomId], stereo_change: Optional[Change] = None
@@ -202,7 +206,11 @@ class StereoCondensedReactionGraph(StereoMolGraph, CondensedReactionGraph):
         if stereo_change is None:
             del self._bond_stereo_change[bond]
         else:
+            if bond not in self._bond_stereo_change:
+                raise KeyError(bond)
             del self._bond_stereo_change[bond][stereo_change]
+            if not self._bond_stereo_change[bond]:
+                del self._bond_stereo_change[bond]
 
     def remove_atom(self, atom: AtomId):
         """Removes an atom from the graph and deletes all stereo information
